@@ -12,6 +12,7 @@ RULE = (
     "RS-style) x information sets; the code is the row space of the encoder's *observed* outputs on a basis; true d by enumeration (k<=20) or MacWilliams on the "
     "reference-computed dual (n-k<=20). Distinct = code object; non-trivial = object constructed and at least one advertised quantity compared with a computed one."
     " Added after the seeded-fault rounds: textbook BCH codes over GF(32)/GF(64) in the quick tier, index-list information sets, units grouped by family and (n,k)."
+    " Round 5: form axis of the catalogue; cyclic siblings - one generator polynomial at lengths n, 2n, 3n built in one process, shortest first and longest first, every object judged on its own."
 )
 ASSUMPTIONS = [
     "exact-vs-lower-bound reading of an advertised distance follows the class docstring (Hamming 3/4, Golay 7/8, repetition n, SPC 2, RM 2^(m-r) exact; cyclic exact for k<=12; BCH/RS >= delta)",
@@ -39,6 +40,10 @@ def units(tier, seed):
         if spec["family"] == "cyclic":
             cost = 1 + 2 ** max(0, spec["n"] - 12)
         out.append({"unit": f"{spec['family']}#{spec['id']}", "spec": spec, "cost": cost, "group": "%s:%d:%d" % ((spec["family"],) + tuple(cat.nk(spec)))})
+    # the same generator polynomial at several lengths (g | X^n+1 implies g | X^(jn)+1), built one after the other in
+    # one process, shortest first and longest first: what one object reports must not depend on its relatives
+    for n0 in (3, 5, 7, 9) if tier == "quick" else (3, 5, 6, 7, 9, 10):
+        out.append({"unit": f"cyclic-siblings-n{n0}", "kind": "siblings", "n0": n0, "cost": 4})
     return out
 
 
@@ -63,6 +68,20 @@ def _rev(v, n):
 def run_unit(ctx, u):
     import torch
 
+    if u.get("kind") == "siblings":
+        n0 = u["n0"]
+        nid = 200000 + 1000 * n0
+        for g in cat.divisors_of_xn1(n0):
+            if not (1 <= gf2m.deg(g) < n0):
+                continue
+            lengths = [L for L in (n0, 2 * n0, 3 * n0) if L <= 27]
+            for order in (lengths + lengths[:1], lengths[::-1] + lengths[-1:]):
+                for L in order:
+                    nid += 1
+                    info = "left" if nid % 2 else "right"
+                    sp = {"family": "cyclic", "n": L, "g": g, "h": cat.pdivmod((1 << L) | 1, g)[0], "src": "g", "info": info, "info_kind": info, "id": nid}
+                    run_unit(ctx, {"unit": u["unit"], "spec": sp})
+        return
     spec = u["spec"]
     f = spec["family"]
     nm = cat.name(spec)
